@@ -249,6 +249,78 @@ def direct(rng, tier, focus=()):
             failures.append({'kind': 'valid-request-after-garbage-not-answered', 'frames': [f.hex() for f in frames], 'replies': got2})
         nontriv.add(tuple(frames))
     samples.append({'direct': 'garbage interleaved with a valid request', 'example': 'random frames + ' + pool[0][1].hex()})
+
+    # histories of well-formed traffic of every kind (unconfirmed requests, unsupported confirmed services,
+    # supported ones, routed requests arriving through different routers): every confirmed request must get
+    # the reply a fresh device gives it, and a Who-Is its I-Am
+    def reply_of(kind_apdu, inv):
+        a = bytearray(kind_apdu); a[2] = inv
+        w, _ = run_world([bytes(a)])
+        return canon_reply_frames(w.replies(), inv)
+    others = C.other_confirmed(INVOKE)
+    conf_pool = pool + others
+    fresh = {name: reply_of(apdu, INVOKE) for name, apdu in conf_pool}
+    unconf = C.unconfirmed_requests()
+    for _ in range(2500 if tier == 'thorough' else 500):
+        n += 1
+        w = C.Device()
+        script, expect = [], []
+        inv = 100
+        for step in range(rng.randrange(2, 7)):
+            r = rng.random()
+            if r < 0.4:
+                name, apdu = rng.choice(unconf)
+                script.append((name, C.npdu(apdu, False), None))
+            else:
+                name, apdu = rng.choice(conf_pool)
+                a = bytearray(apdu); a[2] = inv
+                script.append((name, C.npdu(bytes(a)), inv))
+                inv += 1
+        for name, frame, iv in script:
+            w.raw.frames.clear()
+            w.inject([frame])
+            w.settle(120.0)
+            if iv is not None:
+                got = canon_reply_frames(w.replies(), iv)
+                want = fresh[name]
+                # a stateful service may legitimately answer differently the second time, but never
+                # with a different *kind* of refusal for the service itself: compare PDU type, and for
+                # rejects the reason
+                same = [g[:2] if g[0] in (6, 7) else g[:1] for g in got] == [g[:2] if g[0] in (6, 7) else g[:1] for g in want]
+                if not same:
+                    failures.append({'kind': 'history-changes-answer', 'request': name, 'history': [(x[0], x[1].hex()) for x in script],
+                                     'replies': got, 'fresh_device_replies': want})
+                    break
+            elif name == 'WhoIs':
+                iam = [a for t, i, a in w.replies() if t == 1 and len(a) > 1 and a[1] == 0]
+                if not iam:
+                    failures.append({'kind': 'whois-not-answered-after-history', 'history': [(x[0], x[1].hex()) for x in script]})
+                    break
+        if ssm_residue(w):
+            failures.append({'kind': 'residue-after-history', 'history': [(x[0], x[1].hex()) for x in script], 'residue': ssm_residue(w)})
+        nontriv.add(tuple(x[1] for x in script))
+    samples.append({'direct': 'history of valid traffic', 'example': [x[0] for x in script]})
+
+    # routed requests: the same remote client reached through router A, then B, then A again
+    rp = pool[0][1]
+    for _ in range(300 if tier == 'thorough' else 60):
+        n += 1
+        w = C.Device()
+        snet, sadr = rng.choice([5, 6, 700]), bytes([rng.randrange(1, 255)])
+        order = [rng.choice([w.raw, w.raw2]) for _ in range(rng.randrange(2, 6))]
+        inv = 150
+        for node in order:
+            a = bytearray(rp); a[2] = inv
+            w.raw.frames.clear(); w.raw2.frames.clear()
+            node.send(C.DEV_ADDR, C.npdu_routed(bytes(a), snet, sadr))
+            w.settle(120.0)
+            got = canon_reply_frames(w.replies(both=True), inv)
+            if got != [[3, 0, 0]]:
+                failures.append({'kind': 'routed-request-not-answered', 'snet': snet, 'sadr': sadr.hex(),
+                                 'routers': [str(x.address) for x in order], 'invoke': inv, 'replies': got})
+                break
+            inv += 1
+        nontriv.add(('routed', snet, sadr, tuple(str(x.address) for x in order)))
     return failures, {'evaluations': n, 'distinct_nontrivial': len(nontriv), 'samples': samples}
 
 
